@@ -67,6 +67,7 @@ def mutants(rnd):
         if own in exp: rep = exp[own]
         elif exp: rep = ', '.join(f'{v} (check of {k})' for k, v in sorted(exp.items())) + f' — not by {own}'
         else: rep = '**not detected**'
+        if d.get('confirmed') is False: rep = 'not confirmed on the current tree (' + (d.get('note', '')[:160]) + ' ...)'
         arr = d.get('detected_on_arrival')
         arr_s = {True: 'yes', False: 'no', None: '—'}[arr]
         needs = re.sub(r'\s+', ' ', d.get('needs_to_manifest', ''))[:200].replace('|', '\\|')
@@ -74,14 +75,17 @@ def mutants(rnd):
     hdr = '| mutant | files touched | needs to manifest (from the sub-agent\'s notes, abridged) | reported on arrival | reported now by |\n|---|---|---|---|---|\n'
     return hdr + '\n'.join(rows)
 def stats(rnd):
-    ms = metas(); ids = [k for k in sorted(ms) if re.fullmatch(r'C\d\d[abc]' + (rnd if rnd != '1' else ''), k)]
+    ms = metas(); allids = [k for k in sorted(ms) if re.fullmatch(r'C\d\d[abc]' + (rnd if rnd != '1' else ''), k)]
+    ids = [k for k in allids if ms[k].get('confirmed') is not False]
     own_arr = sum(1 for k in ids if ms[k].get('detected_on_arrival'))
     any_arr = sum(1 for k in ids if ms[k].get('detected_on_arrival') or any(v for v in (ms[k].get('arrival_detection_all_properties') or {}).values()))
     own_now = sum(1 for k in ids if ms[k].get('property') in ms[k].get('expected_detection', {}))
     any_now = sum(1 for k in ids if ms[k].get('expected_detection'))
     nd = [k for k in ids if not ms[k].get('expected_detection')]
     arr = f'reported by the own property\'s check on arrival: {own_arr}, by any check on arrival: {any_arr}; ' if any('detected_on_arrival' in ms[k] for k in ids) else ''
-    return f'{len(ids)} confirmed mutants; {arr}reported now by the own property\'s check: {own_now}, by any check: {any_now}; not detected: {", ".join(nd) or "none"}'
+    unc = [k for k in allids if k not in ids]
+    uncs = f' ({len(unc)} more delivered but not confirmed on the current tree: {", ".join(unc)})' if unc else ''
+    return f'{len(ids)} confirmed mutants{uncs}; {arr}reported now by the own property\'s check: {own_now}, by any check: {any_now}; not detected: {", ".join(nd) or "none"}'
 def reintroduced():
     ms = metas(); rows = []
     for mid in sorted(ms):
@@ -95,7 +99,7 @@ doc = head + '\n\n' + section4() + '\n' + tail
 doc = doc.replace('<!--COUNTS-->', counts())
 doc = re.sub(r'<!--MUTANTS:round=(\w+)-->', lambda m: mutants(m.group(1)), doc)
 doc = doc.replace('<!--DEFECTS-REINTRODUCED-->', reintroduced())
-doc = doc.replace('<!--UNDETECTED-->', ', '.join(k for k in sorted(metas()) if re.fullmatch(r'C\d\d[abc]\d?', k) and not metas()[k].get('expected_detection')))
+doc = doc.replace('<!--UNDETECTED-->', ', '.join(k for k in sorted(metas()) if re.fullmatch(r'C\d\d[abc]\d?', k) and not metas()[k].get('expected_detection') and metas()[k].get('confirmed') is not False))
 kf = json.load(open(f'{V}/known_findings.json'))['findings']
 doc = doc.replace('<!--ND-->', str(len(set(f['commit'] for f in kf if f['status'] == 'fixed'))))
 vi = json.load(open(f'{V}/selftest/variants/index.json')); bi = json.load(open(f'{V}/selftest/benign/index.json'))
